@@ -212,4 +212,6 @@ class SplitCaseTag(Tag):
 
     def process(self, file: File, context: Optional[str]) -> Any:
         assert context is not None
-        return self._pattern.sub("".join((r"\1", self.separator, r"\2")), context)
+        return self._pattern.sub(
+            lambda match: match.group(1) + self.separator + match.group(2), context
+        )
